@@ -619,7 +619,17 @@ class Explorer:
                 continue
             except Unsupported as u:
                 # this path left the verified subset: remembered (the run is then not a proof), but the
-                # other paths are still explored - a refutation found there stands on its own
+                # other paths are still explored - a refutation found there stands on its own.
+                # Floating point branches are explored without asking the solver (decide()): such a path
+                # may be infeasible - then it is no path at all.
+                if p.fp_pc:
+                    try:
+                        if p.check_full(timeout_ms=5000) == z3.unsat:
+                            self.stats["aborted"] += 1
+                            results.append((p, None))
+                            continue
+                    except z3.Z3Exception:
+                        pass
                 if len(self.unsupported) < 50:
                     self.unsupported.append(u)
                 self.stats["unsupported_paths"] = self.stats.get("unsupported_paths", 0) + 1
